@@ -90,10 +90,10 @@ def h_plant(flags, nm, nd=None):
                 c.pre.append(conj(goals))
                 c.supersede(*pinned)
 
-        def lr(*a):
+        def lr(*a, **kw):
             # lemma chaining: the unconstrained regression of the planted model returns exactly the planted values;
             # proved here (one query), then assumed, so that the clamping forks of that model are decided
-            r = inner_lr(*a)
+            r = inner_lr(*a, **kw)
             if st.get('plant') is not None:
                 m, A0, s0sh = st['plant']
                 av_ = symnp._obj(su.value_of(r[0])).reshape(-1)
@@ -102,8 +102,8 @@ def h_plant(flags, nm, nd=None):
                       pinned=(av_[m], sc_[m]))
             return r
 
-        def os_(*a):
-            r = inner_os(*a)
+        def os_(*a, **kw):
+            r = inner_os(*a, **kw)
             if st.get('plant3') is not None:
                 m, d0, A0 = st['plant3']
                 u_ = symnp._obj(su.value_of(r))
@@ -113,8 +113,8 @@ def h_plant(flags, nm, nd=None):
             return r
         inner_chi = fx.fr.chi_squared
 
-        def chi_(*a):
-            r = inner_chi(*a)
+        def chi_(*a, **kw):
+            r = inner_chi(*a, **kw)
             pl = st.get('plant') or st.get('plant3')
             if pl is not None:
                 ch_ = symnp._obj(su.value_of(r))
